@@ -974,7 +974,13 @@ type runResult struct {
 }
 
 // run executes the root once (fresh fuel) on a fresh store.
-func (x *wfExec) run(ctx context.Context) runResult {
+func (x *wfExec) run(ctx context.Context) runResult { return x.runMode(ctx, false) }
+
+// runAsNode runs the root through flyt.Run even when it is a flow, so that the action a flow
+// presents as a node is observed (C18).
+func (x *wfExec) runAsNode(ctx context.Context) runResult { return x.runMode(ctx, true) }
+
+func (x *wfExec) runMode(ctx context.Context, asNode bool) runResult {
 	x.mu.Lock()
 	x.fuel = x.sc.Fuel
 	lo := len(x.trace)
@@ -985,7 +991,7 @@ func (x *wfExec) run(ctx context.Context) runResult {
 	rr.Store, rr.Lo = store, lo
 	p, v := recoverCall(func() {
 		root := x.nodes[x.sc.Root]
-		if f, isFlow := root.(*flyt.Flow); isFlow {
+		if f, isFlow := root.(*flyt.Flow); isFlow && !asNode {
 			// Flow.Run is the documented entry point for flows; the action is not exposed.
 			rr.Err = f.Run(ctx, store)
 			rr.Action = "(flow)"
